@@ -478,6 +478,28 @@ def rule_coh(ctx: Ctx) -> List[Ob]:
             jsrc = src(kj) if kj is not None else "<none>"
             if reach and not jsrc.startswith("checkpoint."):
                 bad.append(f"jac={jsrc} although a gradient evaluation (line {reach[0].line}) precedes this construction")
+            if not reach:
+                # before any evaluation the only gradient that belongs to x is the checkpoint's: on the paths WITH a checkpoint
+                # the reported jac must be exactly that one (a placeholder is acceptable only without a checkpoint)
+                from .consts import _is_ckpt_atom
+
+                def restart_edge(a, b, lab):
+                    if a.kind == "test" and lab in (True, False):
+                        at_ = _is_ckpt_atom(a.ast)
+                        if at_ is not None and (at_ == lab):
+                            return False          # `checkpoint is None` holds on this edge: not a restart path
+                    return True
+                on_restart = n in cfg.reachable(cfg.entry, follow_exc=False, edge_ok=restart_edge)
+                if on_restart:
+                    kj0 = kw(c, "jac")
+                    cands = [kj0]
+                    if isinstance(kj0, ast.Name):
+                        cands = [v2 for d2, v2, _ in mm.rd.value_exprs(n, kj0.id)
+                                 if v2 is not None and (d2 is cfg.entry or d2 in cfg.reachable(cfg.entry, follow_exc=False, edge_ok=restart_edge))
+                                 and n in cfg.reachable(d2, follow_exc=False, edge_ok=restart_edge)]
+                    wrong = [src(v2) for v2 in cands if v2 is None or src(v2) != "checkpoint.jac"]
+                    if wrong:
+                        bad.append(f"on a restart this result reports jac={wrong[0]}, not the checkpoint's gradient (the only gradient known at {xn} there)")
         obs.append(ob("COH", "reported (x, fun, jac) are coherent", mm.f, c, not bad,
                       "; ".join(bad) if bad else f"fun coherent={FX}, jac coherent={GX} at the construction; x={short(kx)}",
                       construct=f"OptimizeResult(x={short(kx, 20)}, fun={short(kf, 20)}, jac={short(kj, 20)}) line-class "
@@ -505,7 +527,9 @@ def rule_cnt(ctx: Ctx) -> List[Ob]:
     acc = [n for n in cfg.nodes if any((dotted(c.func) or "") in (f"{sf}.fun", f"{sf}.grad", f"{sf}.fun_and_grad")
                                        for c in node_calls(n))]
     creat = [n for n in cfg.nodes if any(k == sf for k, _, _ in node_defs(n))]
-    need(len(creat) == 1, "wrapper variable is bound more than once")
+    # one creation per path: several creation sites are fine when none can be reached from another (exclusive branches)
+    need(len(creat) >= 1 and not any(b in cfg.reachable(a, follow_exc=False) for a in creat for b in creat),
+         "wrapper variable is bound more than once on a path")
     for q, f in ctx.repo.funcs.items():
         if f.cls == "ScalarFunction":
             continue
@@ -522,7 +546,7 @@ def rule_cnt(ctx: Ctx) -> List[Ob]:
                     n = cfg.node_of(s)
                     ok = v is not None and src(v) == f"checkpoint.{want}"
                     late = [a for a in acc if n in cfg.reachable(a, follow_exc=False)]
-                    early = not cfg.dominates(creat[0], n)
+                    early = not any(n in cfg.reachable(cr_, follow_exc=False) for cr_ in creat)
                     ok2 = ok and not late and not early
                     obs.append(ob("CNT", f"restore of {d} from the checkpoint precedes every evaluation", f, s, ok2,
                                   f"{d} <- {short(v)}" + ("" if ok else f": expected checkpoint.{want}") +
